@@ -12,7 +12,7 @@ use std::collections::HashMap;
 pub static DEF: PropDef = PropDef {
     id: "C11",
     level: "exploration",
-    total: |t| t.pick(48, 1600),
+    total: |t| t.pick(576, 28800),
     run,
     rule: "1..5 datagrams (1..20000 random bytes; keys differing in exactly one of source/destination/protocol/identification, or equal and sent back to back) cut by the harness's own RFC 791 cutter through chains of 1..3 MTUs >= 68, fragments interleaved by random shuffle (all permutations when <= 5 fragments), 0..3 duplicated fragments, optionally pieces of a second, different cut of the same datagram (overlap), expiry callbacks with fresh or stale epochs at random positions; every receive_packet result is compared with a block-coverage model. Non-trivial = >=2 interleaved datagrams AND out-of-order arrival AND (duplicate or expiry callback); distinct by scenario hash.",
     assumptions: &[
